@@ -358,7 +358,8 @@ def _checked_scalar_constructor(tag: str) -> Callable[[Any, yaml.Node], Any]:
     PyYAML's constructors for int, float, bool and timestamp raise
     assorted built-in exceptions if the scalar is tagged (explicitly,
     or by a too-liberal implicit resolver pattern) as something it
-    cannot be parsed as, e.g. ``!!int abc``, ``0x_`` or ``2001-13-45``.
+    cannot be parsed as, e.g. ``!!int abc``, ``0x_``, ``2001-13-45`` or
+    a base-60 float too large for a float.
 
     Args:
         tag: The YAML tag to create a constructor for.
@@ -371,7 +372,8 @@ def _checked_scalar_constructor(tag: str) -> Callable[[Any, yaml.Node], Any]:
     def construct(loader: Any, node: yaml.Node) -> Any:
         try:
             return pyyaml_constructor(loader, node)
-        except (ValueError, KeyError, AttributeError, IndexError):
+        except (ValueError, KeyError, AttributeError, IndexError,
+                OverflowError):
             raise RecognitionError('{}\nInvalid value for {}'.format(
                 node.start_mark, tag.split(':')[-1]))
 
